@@ -352,7 +352,7 @@ pub fn chunk_strategy(g: &GenCfg, n: usize) -> BoxedStrategy<Vec<Op>> {
         alts.push((g.w_ping, one((0..n).prop_map(|c| Op::Ping { c, notify: true }).boxed())));
     }
     if g.w_disconnect > 0 {
-        alts.push((g.w_disconnect, one((0..n).prop_map(|c| Op::Disconnect { c, notify: true }).boxed())));
+        alts.push((g.w_disconnect, one((0..n, pct(35)).prop_map(|(c, with_props)| Op::Disconnect { c, notify: true, with_props }).boxed())));
     }
     if g.w_droplink > 0 {
         alts.push((g.w_droplink, one((0..n).prop_map(|c| Op::DropLink { c }).boxed())));
